@@ -23,6 +23,7 @@ pub mod editdoc;
 pub mod convert_case;
 pub mod verify;
 pub mod injection;
+pub mod lsp_requests;
 
 pub struct Ctx {
   pub seed: u64,
@@ -65,6 +66,7 @@ pub fn run(unit: &str, ctx: &Ctx, rng: &mut Rng, o: &mut Out) -> bool {
     "replace_all" => navigation::replace_all_unit(ctx, rng, o),
     "verify_run" => verify::verify_run(ctx, rng, o),
     "injection" => injection::injection(ctx, rng, o),
+    "lsp_requests" => lsp_requests::lsp_requests(ctx, rng, o),
     "frontends_edit" => frontends::frontends_edit(ctx, rng, o),
     "frontends_findings" => frontends::frontends_findings(ctx, rng, o),
     "read_file" => worker::read_file(ctx, rng, o),
@@ -138,6 +140,9 @@ pub fn exec_op(op: &str, a: &serde_json::Value) -> serde_json::Value {
     return v;
   }
   if let Some(v) = injection::exec(op, a) {
+    return v;
+  }
+  if let Some(v) = lsp_requests::exec(op, a) {
     return v;
   }
   serde_json::json!({"harness_error": format!("op {op} is not replayable stand-alone")})
